@@ -38,6 +38,13 @@ func TestVerifC07CacheNode(t *testing.T) {
 	errNotFound := verifc07.ErrNotFound
 	verifc07.WriteTrace(t, secs, func(cfg verifh.Cfg) verifc07.Target {
 		mr.FlushAll()
+		mr, rds := mr, rds
+		if cfg.Int("dl", 0) == 1 {
+			// breaker isolated: the failures of this section's expired-deadline calls are counted by a breaker no other
+			// section shares (redis clients - and with them the breaker hook - are cached per address)
+			mr = miniredis.RunT(t)
+			rds = redis.New(mr.Addr())
+		}
 		var barrier syncx.SingleFlight = syncx.NewSingleFlight()
 		if sfd := cfg.Str("sfd", "-"); sfd != "-" {
 			barrier = verifc07.NewSlowSF(sfd, barrier.Do, barrier.DoEx)
@@ -105,6 +112,10 @@ func TestVerifC07CacheNode(t *testing.T) {
 					var cancel context.CancelFunc
 					ctx, cancel = context.WithCancel(ctx)
 					cancel()
+				case 3:
+					var cancel context.CancelFunc
+					ctx, cancel = context.WithDeadline(ctx, time.Now().Add(-time.Second))
+					defer cancel()
 				}
 				switch c.EP() {
 				case 1:
